@@ -323,6 +323,9 @@ func C17(tier string) int {
 	run := h.NewRun("C17", tier, "exploration", "", 20*time.Minute)
 	codes := []int{421, 450, 451, 452, 500, 501, 550, 552, 554}
 	msgs := []string{"", "plain text", " leading space", "trailing space ", "5.1.1 looks like a code", "2.0.0", "non-ASCII: pelé €", "line one\nline two", "one\ntwo\nthree", "first\n\nthird", "a\n5.7.1 b", "tab\there", "   ", "100% full", "%d%s%v%!x(MISSING)", "{E} starts with the reply's own enhanced code", "{E}", "a\n{E} b\n{E}"}
+	for _, n := range []int{498, 499, 512, 600, 998, 1000, 1200, 1900} {
+		msgs = append(msgs, strings.Repeat("long text ", n/10)+strings.Repeat("x", n%10), "short first line\n"+strings.Repeat("y", n))
+	}
 	nHand := len(msgs)
 	// all messages of 1..3 lines over a small set of line shapes (the hand-picked ones above stay)
 	lineShapes := []string{"", "x", " x", "x ", "5.1.1 y", "  ", "t\ty", "100% y%d%s", "{E} y"}
@@ -347,7 +350,7 @@ func C17(tier string) int {
 		}
 	}
 	recLines(nil)
-	run.Rule = fmt.Sprintf("reply codes %v x enhanced code {set (class.7.1), set with three-digit components (class.999.509; hand-picked messages), set with the other class (4.2.2 on a 5xx reply and vice versa), EnhancedCodeNotSet, NoEnhancedCode} x %d message shapes (hand-picked: empty, leading/trailing space, text that looks like an enhanced code, non-ASCII, 1-3 lines, empty middle line, blank; plus ALL messages of 1-3 lines over the line shapes {empty, 'x', ' x', 'x ', '5.1.1 y', blanks, tab, printf verbs, a line starting with the reply's own enhanced code}) x callback {NewSession, Mail, Rcpt, Data}, plus non-SMTPError errors per callback x message shapes, incl. errors that WRAP an SMTPError (still 'any other error'); after every error reply a Noop on the same connection must work; each a real-client <-> real-server conversation; plus the Data verdicts of TWO consecutive transactions on one connection, each via {DATA, BDAT LAST, two BDAT chunks} x 5 verdict shapes each x {first backend call reads the message, returns its error without reading} (scripted peer: the go-smtp client has no BDAT). Distinct by construction; non-trivial = all. Oracle: wire reply (strict parser) and the client's returned *SMTPError both equal the backend's error (X.0.0 for an unset code, zero value for NoEnhancedCode); other errors => 451 (envelope) / 554 (data) with their text.", codes, len(msgs))
+	run.Rule = fmt.Sprintf("reply codes %v x enhanced code {set (class.7.1), set with three-digit components (class.999.509; hand-picked messages), set with the other class (4.2.2 on a 5xx reply and vice versa), EnhancedCodeNotSet, NoEnhancedCode} x %d message shapes (hand-picked: one-line and two-line texts of 498..1900 octets, empty, leading/trailing space, text that looks like an enhanced code, non-ASCII, 1-3 lines, empty middle line, blank; plus ALL messages of 1-3 lines over the line shapes {empty, 'x', ' x', 'x ', '5.1.1 y', blanks, tab, printf verbs, a line starting with the reply's own enhanced code}) x callback {NewSession, Mail, Rcpt, Data}, plus non-SMTPError errors per callback x message shapes, incl. errors that WRAP an SMTPError (still 'any other error'); after every error reply a Noop on the same connection must work; each a real-client <-> real-server conversation; plus the Data verdicts of TWO consecutive transactions on one connection, each via {DATA, BDAT LAST, two BDAT chunks} x 5 verdict shapes each x {first backend call reads the message, returns its error without reading} (scripted peer: the go-smtp client has no BDAT). Distinct by construction; non-trivial = all. Oracle: wire reply (strict parser) and the client's returned *SMTPError both equal the backend's error (X.0.0 for an unset code, zero value for NoEnhancedCode); other errors => 451 (envelope) / 554 (data) with their text.", codes, len(msgs))
 	run.Assumptions = []string{"NoEnhancedCode combined with text that itself parses as an enhanced code is inherently ambiguous on the wire: only the reply code is judged there", "a generic Data error may be prefixed ('Error: transaction failed: ')"}
 	var cases []C17Case
 	for _, cb := range []string{"NewSession", "Mail", "Rcpt", "Data"} {
